@@ -131,7 +131,7 @@ def _copy(a):
 
 
 class Ent:
-    __slots__ = ("coll", "mirror", "eid", "anc", "computed", "nmut", "tainted", "how", "uout", "weight", "tags")
+    __slots__ = ("coll", "mirror", "eid", "anc", "computed", "nmut", "tainted", "how", "uout", "uwhere", "weight", "tags")
 
     def __init__(self, coll, mirror, eid, anc, tainted, how):
         self.coll = coll
@@ -143,6 +143,7 @@ class Ent:
         self.tainted = tainted
         self.how = how
         self.uout = False  # an ufunc out= result is somewhere in this member's expression
+        self.uwhere = False  # ... one with where=
         self.weight = 1  # size of the expression written out as a tree (shared sub-expressions counted each time)
         self.tags = set()  # defect regions this member's history went through (see REGION_DOC)
 
@@ -561,6 +562,8 @@ class Interp:
             if has_neg_step(spec["index"]) and has_zero_chunk(w.coll):
                 self.tags.add(KF_NEG_ZERO_CHUNK)
             try:
+                if w.uwhere and np.ndim(w.mirror[idx]) == 0:
+                    self.tags.add(KF_WHERE_0D)
                 vm = _copy(w.mirror[idx])
             except IndexError as e:
                 raise AssertionError(f"dpool index invalid: {e}")
@@ -649,6 +652,8 @@ class Interp:
                 r0 = m[idx]
             except IndexError as e:
                 raise AssertionError(f"invalid slice: {e}")
+            if v.uwhere and np.ndim(r0) == 0:
+                self.tags.add(KF_WHERE_0D)
             # NumPy hands out the float64 constant np.ma.masked for a masked 0-d element: not a usable reference
             assert not (v.masked and np.ndim(r0) == 0), "0-d selection of a masked array"
             return (lambda c: c[idx]), (lambda a: a[idx]), []
@@ -743,6 +748,7 @@ class Interp:
         fails = self._register(y, twin, mirror, anc, tainted, kind, step.get("cold"), "derive", lineage)
         if self.pool[-1] is not None:
             self.pool[-1].uout = v.uout or any(w.uout for w in extra)
+            self.pool[-1].uwhere = v.uwhere or any(w.uwhere for w in extra)
             self.pool[-1].weight = 1 + v.weight * (2 if kind in ("boolmask", "rowmask") else 1) + sum(w.weight for w in extra)
             self.pool[-1].tags = set(self.tags) | v.tags | {x for w in extra for x in w.tags}
             if extra and zero_chunk_mix([v.coll] + [w.coll for w in extra]):
@@ -897,6 +903,7 @@ class Interp:
             if w is not t:
                 t.anc |= w.anc | {w.eid}
             t.uout = t.uout or w.uout
+            t.uwhere = t.uwhere or w.uwhere
         # SetItem materialises the value's whole graph once per target block (nested self-referential assignments
         # cost blocks**depth); a full-shape dask mask goes through da.where instead
         mult = 1 if dmask_key else n_blocks(t.coll)
@@ -954,6 +961,8 @@ class Interp:
         if w.uout:
             self.tags.add(KF_SLICE_UOUT)
         try:
+            if w.uwhere and np.ndim(w.mirror[idx]) == 0:
+                self.tags.add(KF_WHERE_0D)
             return w.mirror[idx], w.coll[idx], w
         except IndexError as e:
             raise AssertionError(f"ufunc input index: {e}")
@@ -1035,6 +1044,7 @@ class Interp:
         t.nmut += 1
         t.how = "ufunc_out"
         t.uout = True
+        t.uwhere = t.uwhere or wh is not None or any(w.uwhere for w in deps)
         t.weight = 1 + sum(w.weight for w in deps) + (t.weight if wh is not None else 0)
         t.tags |= self.tags | {x for w in deps for x in w.tags}
         for w in deps:
@@ -1182,6 +1192,9 @@ def gen_derive(D_, it, family="any"):
     if kind == "slice":
         step["index"] = _enc_index(gidx.gen_basic_index(D_, m.shape, allow_none=False))
         if v.masked and np.ndim(m[gidx.dec(step["index"])]) == 0:
+            step["index"] = {"tuple": []}
+        if v.uwhere and np.ndim(m[gidx.dec(step["index"])]) == 0 and _steer(KF_WHERE_0D):
+            it.excluded.append(KF_WHERE_0D)
             step["index"] = {"tuple": []}
         if has_neg_step(step["index"]) and has_zero_chunk(v.coll) and _steer(KF_NEG_ZERO_CHUNK):
             it.excluded.append(KF_NEG_ZERO_CHUNK)
@@ -1421,8 +1434,9 @@ def _gen_value(D_, it, i, t, key, sel):
     if k == "dpool":
         no_uout = _steer(KF_SLICE_UOUT)
         no_zero = _steer(KF_NEG_ZERO_CHUNK)
+        no_w0 = not vs and _steer(KF_WHERE_0D)
         room = (MAX_WEIGHT - t.weight) / n_blocks(t.coll)
-        cands = _members(it, lambda e: _plain(e) and e.mirror.ndim >= len(vs) and e.weight <= room and not (no_uout and e.uout) and not (no_zero and has_zero_chunk(e.coll)))
+        cands = _members(it, lambda e: _plain(e) and e.mirror.ndim >= len(vs) and e.weight <= room and not (no_uout and e.uout) and not (no_zero and has_zero_chunk(e.coll)) and not (no_w0 and e.uwhere))
         if not cands:
             it.labels.add("size-cap")
         rel = [c for c in cands if it.pool[c] is t or t.eid in it.pool[c].anc]
@@ -1986,12 +2000,12 @@ REGION_DOC = {
     KF_DBOOL_BCAST: "setitem with a 1-d dask bool index and an array value whose shape differs from the selection (broadcast)",
     KF_DINT_ND: "setitem with a 1-d dask int index and a value of >= 2 dimensions",
     KF_LEADING_ONE: "setitem with a value that has more dimensions than the selection (extra leading unit dimensions)",
-    KF_WHERE_0D: "ufunc(..., out=v, where=mask) on a 0-d v",
+    KF_WHERE_0D: "ufunc(..., out=v, where=mask) on a 0-d v, or an index that reduces such a result to 0-d (x[0] after np.add(x, 1, out=x, where=m))",
     KF_MASKED_0D: "x[...] = np.ma.masked on a 0-d x",
     KF_ZERO_CHUNK_MASK: "optimisation changes the block structure of collections with a zero-width block next to other blocks (typical after compute_chunk_sizes): compute_chunk_sizes of anything built on them (u > 0, u + w, u[mask] = v), or u[u > k], raises",
     KF_NEG_ZERO_CHUNK: "negative-step slice of a collection whose chunks contain a zero-width block next to other blocks (typical after compute_chunk_sizes)",
     KF_OUT_DTYPE: "ufunc(..., out=v) whose natural result dtype differs from v's dtype",
-    KF_SLICE_UOUT: "a basic index / boolean mask (or compute_chunk_sizes, which slices internally) applied to a collection whose expression contains an ufunc out= result",
+    KF_SLICE_UOUT: "[fixed in /repo on 2026-09-22: Elemwise._accept_slice now slices where/out] a basic index / boolean mask (or compute_chunk_sizes, which slices internally) applied to a collection whose expression contains an ufunc out= result",
 }
 
 
